@@ -285,6 +285,10 @@ impl Vals {
     }
     /// time in 2^-32 ns units
     pub fn time(&self, name: &str) -> u128 {
+        // "=<decimal>": a literal value (used by the network simulation, whose timestamps mean something)
+        if let Some(lit) = name.strip_prefix('=') {
+            return lit.parse::<u128>().expect("literal time");
+        }
         let (base, class) = match name.split_once('#') {
             Some((b, c)) => (b, c),
             None => (name, ""),
